@@ -289,7 +289,7 @@ pub fn main(opts: &Opts) -> Report {
         return rep;
     }
     let mut rng = Rng::new(opts.shard_seed() ^ 0xC16);
-    let n = opts.budget(16 * 60, 16 * 3000);
+    let n = opts.budget(16 * 800, 16 * 40000);
     let kinds = ["VectorSource", "FileSource", "SigMFSource(recording)", "SigMFSource(archive)"];
     for k in 0..n {
         let pages = if rng.chance(2, 3) { 1 } else { 2 };
